@@ -437,6 +437,11 @@ def gen_source(rng, idx):
         imported = only
         L.append("  use kinds_mod, only : %s" % ", ".join(only))
         feats.add("use-only")
+    ext_procs = []
+    if rng.random() < 0.7:
+        ext_procs = rng.sample(["ext_a", "ext_b", "ext_c", "ext_d"], rng.randint(1, 4))
+        L.append("  use backend_mod, only : %s" % ", ".join(ext_procs))
+        feats.add("use-procedures")
     if rng.random() < 0.3:
         L.append("  use other_mod")
         feats.add("use-wildcard")
@@ -480,11 +485,50 @@ def gen_source(rng, idx):
         if rng.random() < 0.7:
             L.append("  integer, parameter :: kb = kind(bb)")
             feats.add("const-inquires-variable")
-    if len(routines) == 2 and rng.random() < 0.5:
-        L.append("  interface gen")
-        L.append("    module procedure s_one, s_two")
-        L.append("  end interface gen")
+    extra_local = ["p_a", "p_b", "p_c"][:rng.randint(0, 3)]
+    local_procs = routines + extra_local
+    for gname in ["gen", "gen2"][:rng.choice([0, 1, 1, 2])]:
+        # generic interface: 0-3 plain PROCEDURE statements and 0-3 MODULE PROCEDURE statements in
+        # any order; plain ones may name imported or local procedures, module ones local procedures
+        avail_plain = ext_procs + local_procs
+        rng.shuffle(avail_plain)
+        avail_mod = local_procs[:]
+        rng.shuffle(avail_mod)
+        stmts, used = [], set()
+        for kind in rng.sample(["plain"] * 3 + ["module"] * 3, rng.randint(1, 5)):
+            pool = [x for x in (avail_plain if kind == "plain" else avail_mod) if x not in used]
+            if not pool:
+                continue
+            names = pool[:rng.randint(1, min(2, len(pool)))]
+            used.update(names)
+            sep = " :: " if rng.random() < 0.5 else " "
+            stmts.append("    %s%s%s" % ("procedure" if kind == "plain" else "module procedure", sep, ", ".join(names)))
+            feats.add("iface-" + kind)
+        if not stmts:
+            continue
+        kinds = [st.strip().split()[0] for st in stmts]
+        if "procedure" in kinds and "module" in kinds and kinds.index("procedure") < kinds.index("module"):
+            feats.add("iface-plain-before-module")
+        L.append("  interface %s" % gname)
+        L += stmts
+        L.append("  end interface %s" % gname if rng.random() < 0.7 else "  end interface")
         feats.add("interface")
+    if rng.random() < 0.2:
+        L += ["  interface operator(.myop.)", "    module procedure f_op", "  end interface"]
+        feats.add("iface-operator")
+        extra_local = extra_local + ["f_op"]
+    if rng.random() < 0.2:
+        L += ["  interface assignment(=)", "    module procedure p_asg", "  end interface"]
+        feats.add("iface-assignment")
+        extra_local = extra_local + ["p_asg"]
+    if rng.random() < 0.25:
+        L += ["  abstract interface", "    subroutine abs_if(x)", "      real, intent(inout) :: x", "    end subroutine abs_if",
+              "  end interface"]
+        feats.add("iface-abstract")
+    if rng.random() < 0.25:
+        L += ["  interface", "    subroutine ext_body(x, n)", "      integer, intent(in) :: n", "      real, intent(inout) :: x(n)",
+              "    end subroutine ext_body", "  end interface"]
+        feats.add("iface-body")
     L.append("contains")
     for r in routines:
         L.append("  subroutine %s(a, k)" % r)
@@ -515,5 +559,14 @@ def gen_source(rng, idx):
                 body.append("    call s_extern(a, j)")
         L += body
         L.append("  end subroutine %s" % r)
+    bodies = {"p_a": ["  subroutine p_a(x)", "    real, intent(inout) :: x", "    x = 1.0", "  end subroutine p_a"],
+              "p_b": ["  subroutine p_b(x, y)", "    real, intent(inout) :: x, y", "    x = y", "  end subroutine p_b"],
+              "p_c": ["  subroutine p_c(i)", "    integer, intent(inout) :: i", "    i = 1", "  end subroutine p_c"],
+              "f_op": ["  function f_op(a, b) result(r)", "    real, intent(in) :: a, b", "    real :: r", "    r = a + b",
+                       "  end function f_op"],
+              "p_asg": ["  subroutine p_asg(a, b)", "    real, intent(out) :: a", "    integer, intent(in) :: b", "    a = b",
+                        "  end subroutine p_asg"]}
+    for nm in extra_local:
+        L += bodies[nm]
     L.append("end module %s" % mod)
     return "\n".join(L) + "\n", sorted(feats)
